@@ -205,7 +205,8 @@ impl Cursor<'_> {
                             e,
                         ))
                     }
-                    _ => return Ok(self.ident()?),
+                    // Entire token is already consumed, and no keyword starts with a hex prefix
+                    _ => return Ok(TokenKind::Label),
                 },
             },
         };
